@@ -451,8 +451,25 @@ void ObjsEngine::op_scale(const Step& st)
   static const double F[] = {2, -1, 0.5, 3, 0.25, -2, 1, 4};
   double f = F[st.arg(1) % 8]; bool div = st.arg(2) % 2;
   ST->state("triples", fmt("%s/%s/%s", div ? "div-assign" : "mul-assign", TN[s.m.t], s.m.d.empty() ? "empty" : "nonempty"));
+  // The factor may be an ELEMENT OF THE OBJECT ITSELF, handed over as the reference operator() returns (v *= v(k),
+  // A *= A(i,j)): the product is defined by the value the element has when the call is made.
+  bool aliased = false;
+  if (!div && (st.arg(2) / 2) % 3 == 1 && !s.m.d.empty()) {
+    int i = 1 + (int)((st.arg(1) / 8) % s.m.r), j = 1 + (int)((st.arg(1) / 64) % s.m.c);
+    if (s.m.inband(i, j)) {
+      double e = s.m.at(i, j);
+      if (std::fabs(e) >= 0.25 && std::fabs(e) <= 4) {
+        aliased = true; f = e;
+        ST->state("triples", fmt("mul-assign-by-own-element/%s", TN[s.m.t]));
+        if (s.m.t == T_VEC) *s.vec *= (*s.vec)(i);
+        else if (RBase* mb = s.base()) *mb *= (*mb)(i, j);
+        else { RVBase* vb = s.vbase(); *vb *= (*vb)(i); }
+      }
+    }
+  }
   // MatVecBase::operator*=, /= (in place); Vec has its own operator*= too
-  if (s.m.t == T_VEC && !div) *s.vec *= f;
+  if (aliased) {}
+  else if (s.m.t == T_VEC && !div) *s.vec *= f;
   else if (RBase* mb = s.base()) { if (div) *mb /= f; else *mb *= f; }
   else { RVBase* vb = s.vbase(); if (div) *vb /= f; else *vb *= f; }
   double mf = div ? 1 / f : f;      // library: operator/= is operator*=(1/f); the factors used are exact powers of two or make 1/f exact where tested
